@@ -380,7 +380,7 @@ func sweepHookOpts(prop string, keep func(o *Obligation) bool, frames bool) prop
 			if strings.HasSuffix(k, ".init") {
 				continue
 			}
-			if frames && frameSweepExcluded(k) {
+			if frames && (frameSweepExcluded(k) || c.e.onlyCalledFromRegistration(fn)) {
 				continue
 			}
 			ctr := c.e.ctrs[k]
@@ -628,4 +628,87 @@ func headerHasNext(b *ssa.BasicBlock) bool {
 		}
 	}
 	return false
+}
+
+// onlyCalledFromRegistration: a plain function (not a method, whose callers may be dynamic) all of whose static callers are
+// registration-time code excluded from the frame sweep - e.g. a helper extracted from addChecker. It runs at registration
+// time as well, where there is no analysed tree and no concurrent checker to protect.
+func (e *Engine) onlyCalledFromRegistration(fn *ssa.Function) bool {
+	if e.regOnly == nil {
+		e.regOnly = map[*ssa.Function]bool{}
+		// direct calls only; a function that is also used as a value (stored, passed, turned into a closure) can be called
+		// from anywhere at any time and is never excluded
+		callers := map[*ssa.Function][]*ssa.Function{}
+		usedAsValue := map[*ssa.Function]bool{}
+		for _, k := range e.sortedFuncKeys() {
+			f := e.funcs[k]
+			for _, b := range f.Blocks {
+				for _, ins := range b.Instrs {
+					var direct *ssa.Function
+					if call, ok := ins.(ssa.CallInstruction); ok {
+						direct = call.Common().StaticCallee()
+						if direct != nil {
+							callers[direct] = append(callers[direct], f)
+						}
+					}
+					if mc, ok := ins.(*ssa.MakeClosure); ok {
+						if t, ok := mc.Fn.(*ssa.Function); ok {
+							usedAsValue[t] = true
+						}
+					}
+					if _, isDbg := ins.(*ssa.DebugRef); isDbg {
+						continue
+					}
+					var ops []*ssa.Value
+					for i, op := range ins.Operands(ops) {
+						if op == nil || *op == nil {
+							continue
+						}
+						if t, ok := (*op).(*ssa.Function); ok {
+							if call, isCall := ins.(ssa.CallInstruction); isCall && i == 0 && call.Common().StaticCallee() == t && !call.Common().IsInvoke() {
+								continue // the callee position of a direct call
+							}
+							usedAsValue[t] = true
+						}
+					}
+				}
+			}
+		}
+		excluded := func(f *ssa.Function) bool { return frameSweepExcluded(funcKey(f)) || e.regOnly[f] }
+		for changed := true; changed; {
+			changed = false
+			for _, k := range e.sortedFuncKeys() {
+				f := e.funcs[k]
+				if e.regOnly[f] || frameSweepExcluded(k) {
+					continue
+				}
+				root := f
+				for root.Parent() != nil {
+					root = root.Parent()
+				}
+				if root.Signature.Recv() != nil || len(callers[f]) == 0 || usedAsValue[f] || f.Parent() != nil {
+					continue
+				}
+				all := true
+				for _, c := range callers[f] {
+					if !excluded(c) {
+						all = false
+					}
+				}
+				if all {
+					e.regOnly[f] = true
+					changed = true
+				}
+			}
+		}
+	}
+	if os.Getenv("VERIF_SHOW_REGONLY") != "" && !e.regShown {
+		e.regShown = true
+		for _, k := range e.sortedFuncKeys() {
+			if e.regOnly[e.funcs[k]] {
+				fmt.Println("REGONLY", k)
+			}
+		}
+	}
+	return e.regOnly[fn]
 }
